@@ -1,6 +1,6 @@
 (* Property theorems of the Gql cluster. Nothing but statements, [exact], and
    Print Assumptions. *)
-From FC Require Import Gql.Model Gql.Proofs38 Gql.Proofs37 Gql.Proofs36.
+From FC Require Import Gql.Model Gql.Proofs38 Gql.Proofs37 Gql.Proofs37b Gql.Proofs36.
 From Coq Require Import Sorting.Permutation.
 Open Scope N_scope.
 
@@ -191,6 +191,26 @@ Theorem sel_code_sound : forall world owner asset base target max partial excl r
   OutcomeSpec world owner asset base target max partial excl r.
 Proof. exact sel_code_sound_all. Qed.
 Print Assumptions sel_code_sound.
+
+(* the sum of the k largest amounts does not depend on the listing order *)
+Theorem topk_perm : forall k a b, Permutation a b -> topk_sum k a = topk_sum k b.
+Proof. exact topk_perm_all. Qed.
+Print Assumptions topk_perm.
+
+(* Summary in the checker's terms: outside the max = 0 class, every outcome (answer or
+   error) of each of the three algorithms, for every dust-count draw r and every shuffle,
+   satisfies OutcomeSpec = what sel_code decides on the implementation's answers
+   (errors: only InsufficientCoins / MaxCoinsReached, only if the max largest admissible
+   amounts do not reach the target, with allow_partial only if they sum to 0). *)
+Theorem outcome_spec_partial : forall world owner asset base target max partial excl r shuffled res,
+  WF world -> max <= u16max -> target <= u128max -> ~ MaxZeroClass target max partial ->
+  Permutation shuffled (coins_stream world owner asset base excl) ->
+  (select_coins_to_spend (index_stream world owner asset base) target max partial excl r = res \/
+   largest_first (coins_stream world owner asset base excl) target max partial = res \/
+   random_improve (coins_stream world owner asset base excl) shuffled target max partial = res) ->
+  OutcomeSpec world owner asset base target max partial excl res.
+Proof. exact outcome_spec_all. Qed.
+Print Assumptions outcome_spec_partial.
 
 (* ======================================================================== *)
 (* C36  process_executor_events with balances and coins-to-spend indexation enabled.
